@@ -54,7 +54,7 @@ package machos
 //@   modifies nothing
 //@
 //@ func (*machoMarkers).patchLinkEdit
-//@   property C11 C03
+//@   property C11 C03 C08
 //@   nopanic
 //@   requires f != nil && f.ByteOrder != nil && 0 < f.linkEditHdrPos && f.linkEditHdrPos + 56 <= len(newHeader) && len(newHeader) <= 4294967352 && \
 //@        patch != nil && binpatch.repOK(patch) && binpatch.rangesOK(patch)
